@@ -1452,7 +1452,11 @@ class H2Connection:
         # RFC 7540 Section 6.5.2.
         if SettingCodes.HEADER_TABLE_SIZE in changes:
             setting = changes[SettingCodes.HEADER_TABLE_SIZE]
-            self.encoder.header_table_size = setting.new_value
+            # Assigning the size the encoder already has would make it forget
+            # that it still owes the peer a dynamic table size update for an
+            # earlier change.
+            if setting.new_value != self.encoder.header_table_size:
+                self.encoder.header_table_size = setting.new_value
 
         if SettingCodes.MAX_FRAME_SIZE in changes:
             setting = changes[SettingCodes.MAX_FRAME_SIZE]
